@@ -60,6 +60,12 @@ CHECKS = {
         "Trusted: the generator's alias pools are disjoint from canonical names. Re-declaring an alias for another canonical name is outside the statement.",
         "4/C12",
     ),
+    "C09": (
+        "runtime monitor: generated price scenarios (ledger-derived events in five written forms + price-DB lines) queried for every pair and boundary date on one Ledger; rates compared with a brute-force reference over all simple chains; hook distance triple as secondary clause",
+        "6*10^3 (quick) / 4*10^5 (thorough) scenarios of 3-5 commodities and 3-12 dated price events (cycles, disconnected parts, parallel ledger/price-DB prices, several prices per date), each queried ~160-240 times (all ordered pairs x d-1/d/d+1 of every event date, shuffled, sharing the rate-table cache): the observed rate must be the rate of a chain that is optimal by (ledger-derived steps, steps, staleness) using per step the most recent record on or before the date, reciprocal for the reverse direction, identity for A->A, failure when no chain exists; price-DB records displace ledger ones for the pair.",
+        "Trusted: harness/src/model/price.rs (unit-tested); 1e-18 relative tolerance; either reading of chain staleness accepted for the rate, the code's own (stalest step) for the hook clause.",
+        "4/C09",
+    ),
 }
 
 NOT_APPLICABLE = []
